@@ -712,13 +712,13 @@ def check_property(prop, tier, seed, only=None):
         confirmed = []
         rc = 2
     wall = time.time() - t0
-    write_evidence(prop, tier, seed, jobs, results, steps, confirmed, inconclusive, known_lines, wall, tree)
+    write_evidence(prop, tier, seed, jobs, results, steps, confirmed, inconclusive, known_lines, wall, tree, partial=only is not None)
     log("%s tier=%s: %d jobs, %d violations, %d known findings, %d inconclusive, %.0fs -> exit %d" % (
         pid, tier, len(jobs), len(confirmed), len(known_lines), len(inconclusive), wall, rc))
     return rc
 
 
-def write_evidence(prop, tier, seed, jobs, results, steps, confirmed, inconclusive, known_lines, wall, tree):
+def write_evidence(prop, tier, seed, jobs, results, steps, confirmed, inconclusive, known_lines, wall, tree, partial=False):
     pid = prop.pid
     samples = []
     obligations = discharged = 0
@@ -790,6 +790,9 @@ def write_evidence(prop, tier, seed, jobs, results, steps, confirmed, inconclusi
         "violations": len(confirmed),
     }
     evdir = os.environ.get("VERIF_EVIDENCE_DIR", os.path.join(VERIF, "evidence"))
+    if partial:
+        # a run restricted with --only is a debugging run: it must not overwrite the property's evidence
+        evdir = os.path.join(os.environ.get("VERIF_LOG_DIR", os.path.join(VERIF, "logs")), pid, "partial_evidence")
     os.makedirs(evdir, exist_ok=True)
     with open(os.path.join(evdir, pid + ".json"), "w") as f:
         json.dump(ev, f, indent=1)
